@@ -526,3 +526,62 @@ def _(ctx):
     ctx.merge_rules(it)
 
 from contracts.shared import reregister as _rr2
+
+# ---------------------------------------------------------------------------------------------------
+# frame of init_yukawas: which members it may write, per parametrisation.  In the general THDM the Pi_f ARE the inputs the coupling getters read (get_rho_f): the
+# initialisation must not touch them; in the aligned model zeta_f and Delta_f are the inputs.
+# ---------------------------------------------------------------------------------------------------
+INIT_REPLAY = r'''
+#include "gm2calc/THDM.hpp"
+#include "gm2calc/SM.hpp"
+#include "gm2calc/gm2_error.hpp"
+#include <cstdio>
+#include <cmath>
+#include <complex>
+// REAL constructor, general THDM with a non-trivial CKM matrix: the model must report back the Pi_f it was given
+int main() {
+   int bad = 0;
+   for (double tb : {0.8, 3.0, 20.0}) {
+      gm2calc::thdm::Mass_basis b; b.yukawa_type = gm2calc::thdm::Yukawa_type::general;
+      b.mh = 125; b.mH = 400; b.mA = 420; b.mHp = 440; b.sin_beta_minus_alpha = 0.999; b.tan_beta = tb; b.m122 = 40000;
+      b.Pi_u << 0.01, 0.002, 0.003, 0.004, 0.05, 0.006, 0.007, 0.008, 0.9;
+      b.Pi_d << 0.001, 0.0002, 0.0003, 0.0004, 0.005, 0.0006, 0.0007, 0.0008, 0.02;
+      b.Pi_l << 0.0001, 0.002, 0.0003, 0.0004, 0.005, 0.0006, 0.0007, 0.0008, 0.01;
+      gm2calc::SM sm;
+      const gm2calc::THDM m(b, sm);
+      const char* nm[3] = {"Pi_u", "Pi_d", "Pi_l"};
+      const Eigen::Matrix<std::complex<double>,3,3> got[3] = {m.get_Pi_u(), m.get_Pi_d(), m.get_Pi_l()};
+      const Eigen::Matrix<double,3,3> want[3] = {b.Pi_u, b.Pi_d, b.Pi_l};
+      for (int f = 0; f < 3; f++) for (int i = 0; i < 3; i++) for (int j = 0; j < 3; j++)
+         if (std::abs(got[f](i,j) - want[f](i,j)) > 1e-14) { bad++; if (bad < 6) std::printf("tan(beta)=%g: %s(%d,%d) given %g, model holds (%g,%g)\n", tb, nm[f], i, j, want[f](i,j), got[f](i,j).real(), got[f](i,j).imag()); }
+   }
+   std::printf("%d entries of the input Pi_f not reported back by the general THDM\n", bad);
+   return bad ? 1 : 0;
+}
+'''
+
+def init_replay(model, wd):
+    from gm2v import native
+    import subprocess
+    exe = native.build_against_library(wd, INIT_REPLAY, name='init_yukawas')
+    r = subprocess.run([exe], capture_output=True, text=True, timeout=120)
+    return r.returncode == 1, r.stdout.strip()[-1200:]
+
+@obligation('C09.init_yukawas.frame', fns=[(TH, 'THDM::init_yukawas')], replay=init_replay)
+def _(ctx):
+    """ensures, for every Yukawa type and all parameter values: init_yukawas writes only Gamma_u, Gamma_d, Gamma_l and -- except in the general THDM -- Pi_u, Pi_d, Pi_l;
+    in the general THDM the input matrices Pi_f are left exactly as given; zeta_f, Delta_f, the vevs, the SM object and every other member are never written"""
+    from contracts.c19 import snapshot
+    names = {1: 'type_1', 2: 'type_2', 3: 'type_X', 4: 'type_Y', 5: 'aligned', 6: 'general'}
+    for yt, nm in names.items():
+        it = Interp(ctx.w, mode='sym', div_sides=False)
+        th = it.new_object('THDM', symbolic_fields(None, prefix=''))
+        th.f['yukawa_type'] = yt
+        before = snapshot(th)
+        ps = it.run_paths(lambda: it.call('init_yukawas', [], this=th))
+        ctx.merge_rules(it)
+        after = snapshot(th)
+        allowed = {'Gamma_u', 'Gamma_d', 'Gamma_l'} | (set() if yt == 6 else {'Pi_u', 'Pi_d', 'Pi_l'})
+        changed = sorted(k for k in before if before[k] != after.get(k) and k.split('.')[0] not in allowed)
+        ctx.record(nm, PROVED if (ps and not changed) else FAILED, 'B', 0, '%d path(s); members written outside the frame: %s' % (len(ps), changed or 'none'),
+                   model=None if not changed else {'_type': nm})
